@@ -35,7 +35,11 @@ def parseRType : String → Option RType
 
 def parseBeh : String → Option Beh
   | "pb" => some .pb | "pbe" => some .pbe | "none" => some .none | "sep" => some .sep
-  | "empty" => some .empty | "blk" => some .blk | _ => none
+  | "empty" => some .empty | "blk" => some .blk
+  -- the handler hijacks its request and re-uses / releases it: what it does with the request object afterwards must not
+  -- matter, the reply belongs to the request as it arrived
+  | "hjm" => some .pb | "hjr" => some .none
+  | _ => none
 
 /-- An op of the scenario line, expanded into the model events it stands for. -/
 inductive Op
